@@ -264,6 +264,8 @@ def addStart (r : Nat) (s : State) : State :=
 /-- `attempt_addition`: returns the indices of the added rows (`[]` on failure, atoms restored) -/
 def attemptAddition (r : Nat) (s : State) : List Nat × State :=
   let new := toAddOf (s.obj r) s.ctx
+  -- `if not len(self.to_add_atoms): return []` (nothing to insert is not a move; repair commit 9809729)
+  if new.isEmpty then ([], s.setObj r { s.obj r with toAdd := some new }) else
   let moving := addMoving new s.atoms.rows.length
   let res := attemptDisplacement { s.obj r with toAdd := some new } (addStart r s)
   if res.1 then (moving, res.2)
